@@ -155,10 +155,11 @@ impl LinkFlowState<role::SenderMarker> {
         );
 
         if let Some(link_credit_rcv) = flow.link_credit {
-            let link_credit = delivery_count_rcv
-                .saturating_add(link_credit_rcv)
-                .saturating_sub(state.delivery_count);
-            state.link_credit = link_credit;
+            // The delivery-counts are sequence numbers that wrap around. The sender is never
+            // behind the receiver, so the (wrapping) distance is the number of deliveries the
+            // receiver had not yet seen when it sent this flow; they consume the credit first.
+            let in_flight = state.delivery_count.wrapping_sub(delivery_count_rcv);
+            state.link_credit = link_credit_rcv.saturating_sub(in_flight);
         }
 
         // available
